@@ -628,7 +628,12 @@ func (env *c15Env) render(s c15Sink) (out string) {
 		}
 		var buf bytes.Buffer
 		if err := gob.NewEncoder(&buf).Encode(t); err != nil {
-			return "ERR: " + err.Error()
+			msg := err.Error()
+			// which unregistered type gob meets first depends on map iteration order
+			if i := strings.Index(msg, "type not registered for interface"); i >= 0 {
+				msg = msg[:i+len("type not registered for interface")]
+			}
+			return "ERR: " + msg
 		}
 		return buf.String()
 	case "text":
@@ -839,8 +844,12 @@ func c15ShapeStr(sh c15Shape) string {
 
 // run a configuration: build both errors once, run every sink on both
 func c15RunCfg(cfg c15Cfg, sinks []c15Sink) []Case {
-	env1 := c15NewEnv(cfg, cfg.Mark1)
-	env2 := c15NewEnv(cfg, cfg.Mark2)
+	// both runs go through the same call site: the stack traces must not differ
+	var envs [2]*c15Env
+	for i, m := range []string{cfg.Mark1, cfg.Mark2} {
+		envs[i] = c15NewEnv(cfg, m)
+	}
+	env1, env2 := envs[0], envs[1]
 
 	// the carrier's fields as a Coq term (from the first run; the shape is the same in both)
 	var fl []string
